@@ -2,6 +2,7 @@
 // Three instantiations share one operation protocol (the model is over integers with the usual order):
 //   kind 0: kll_sketch<int64_t>
 //   kind 1: kll_sketch<double> fed integer values (plus NaN updates / NaN split points)
+//   kind 3: kll_sketch<int64_t, DirCmp> with a stateful comparator instance (see DirCmp below)
 //   kind 2: kll_sketch<std::string, std::greater<std::string>>: item v is stored as enc(-v) with enc an
 //           order-preserving fixed-width encoding, so that greater<string> on the stored items is < on v.
 // Results (R lines) come from the public API only; the private min_k_ is read (macro below) for one F value of op 5, so that
@@ -44,9 +45,18 @@ struct K2 {
   }
 };
 
+// kind 3: a STATEFUL comparator: DirCmp(true) orders descending, a default-constructed DirCmp() ascending; item v is stored as -v, so
+// that the stored comparator's order on the stored items is < on v (code that uses C() instead of the stored instance orders the wrong way)
+struct DirCmp { bool desc; DirCmp(bool d = false): desc(d) {} bool operator()(int64_t a, int64_t b) const { return desc ? b < a : a < b; } };
+struct K3 {
+  typedef kll_sketch<int64_t, DirCmp> sk_t; typedef int64_t item_t;
+  static item_t enc(I v) { return -(int64_t)v; }
+  static I dec(const item_t& x) { return -(I)x; }
+};
+
 struct Reg {
   int kind;
-  std::unique_ptr<K0::sk_t> s0; std::unique_ptr<K1::sk_t> s1; std::unique_ptr<K2::sk_t> s2;
+  std::unique_ptr<K0::sk_t> s0; std::unique_ptr<K1::sk_t> s1; std::unique_ptr<K2::sk_t> s2; std::unique_ptr<K3::sk_t> s3;
 };
 static std::map<long, Reg> regs;
 
@@ -59,6 +69,7 @@ template<typename K> struct Sel;
 template<> struct Sel<K0> { static std::unique_ptr<K0::sk_t>& p(Reg& r) { return r.s0; } };
 template<> struct Sel<K1> { static std::unique_ptr<K1::sk_t>& p(Reg& r) { return r.s1; } };
 template<> struct Sel<K2> { static std::unique_ptr<K2::sk_t>& p(Reg& r) { return r.s2; } };
+template<> struct Sel<K3> { static std::unique_ptr<K3::sk_t>& p(Reg& r) { return r.s3; } };
 
 // min_k through the public API only: the k' whose published rank error equals the sketch's
 template<typename S> static I derive_min_k(const S& s) {
@@ -174,6 +185,7 @@ static void handler(const Line& t, Out& o) {
     if (kind == 0) g.s0.reset(new K0::sk_t((uint16_t)k));
     else if (kind == 1) g.s1.reset(new K1::sk_t((uint16_t)k));
     else if (kind == 2) g.s2.reset(new K2::sk_t((uint16_t)k));
+    else if (kind == 3) g.s3.reset(new K3::sk_t((uint16_t)k, DirCmp(true)));
     else throw std::invalid_argument("kind");
     regs[(long)t.at(1)] = std::move(g);
     o.R(1); break; }
@@ -185,14 +197,15 @@ static void handler(const Line& t, Out& o) {
     if (t.at(1) == t.at(2)) throw std::invalid_argument("self merge not exercised");
     Reg& a = get(t.at(1)); Reg& b = get(t.at(2)); bool rv = op == 4 && t.at(3) == 1;
     if (a.kind != b.kind) throw std::invalid_argument("kinds differ");
-    if (a.kind == 0) merge_op<K0>(a, b, rv); else if (a.kind == 1) merge_op<K1>(a, b, rv); else merge_op<K2>(a, b, rv);
+    if (a.kind == 0) merge_op<K0>(a, b, rv); else if (a.kind == 1) merge_op<K1>(a, b, rv); else if (a.kind == 2) merge_op<K2>(a, b, rv); else merge_op<K3>(a, b, rv);
     if (rv) regs.erase((long)t.at(2));
     o.R(1); break; }
   case 9: { // CDF with a NaN split point at position t[2] (double sketches)
     Reg& g = get(t.at(1));
     if (g.kind != 1) { // other kinds: nothing to ask; behave as the model (sorted view set up, then refused)
       if (g.kind == 0) { if (!g.s0->is_empty()) g.s0->get_rank(0, true); }
-      else { if (!g.s2->is_empty()) g.s2->get_rank(K2::enc(0), true); }
+      else if (g.kind == 2) { if (!g.s2->is_empty()) g.s2->get_rank(K2::enc(0), true); }
+      else { if (!g.s3->is_empty()) g.s3->get_rank(K3::enc(0), true); }
       throw std::invalid_argument("no NaN for this kind");
     }
     std::vector<double> sp; for (size_t i = 3; i < t.size(); ++i) sp.push_back(K1::enc(t[i]));
@@ -204,7 +217,8 @@ static void handler(const Line& t, Out& o) {
     Reg& b = get(t.at(2)); Reg g; g.kind = b.kind;
     if (b.kind == 0) g.s0.reset(new K0::sk_t(*b.s0));
     else if (b.kind == 1) g.s1.reset(new K1::sk_t(*b.s1));
-    else g.s2.reset(new K2::sk_t(*b.s2));
+    else if (b.kind == 2) g.s2.reset(new K2::sk_t(*b.s2));
+    else g.s3.reset(new K3::sk_t(*b.s3));
     regs[(long)t.at(1)] = std::move(g);
     o.R(1); break; }
   case 20: { // serialize
@@ -228,7 +242,7 @@ static void handler(const Line& t, Out& o) {
   case 97: o.R(1); o.F((I)vh::source().scripted.size()); break;
   default: {
     Reg& g = get(t.at(1));
-    if (g.kind == 0) run_op<K0>(op, g, t, o); else if (g.kind == 1) run_op<K1>(op, g, t, o); else run_op<K2>(op, g, t, o);
+    if (g.kind == 0) run_op<K0>(op, g, t, o); else if (g.kind == 1) run_op<K1>(op, g, t, o); else if (g.kind == 2) run_op<K2>(op, g, t, o); else run_op<K3>(op, g, t, o);
   }
   }
 }
